@@ -10,6 +10,7 @@ From Coq Require Import List ZArith Reals.
 Require Import Clarabel.Base.Ops Clarabel.Csc.Model Clarabel.Csc.Spec.
 Require Import Clarabel.Csc.LemmasStruct Clarabel.Csc.LemmasAlg.
 Require Import Clarabel.Csc.LemmasSym Clarabel.Csc.LemmasOrd Clarabel.Csc.LemmasBlock.
+Require Import Clarabel.Csc.LemmasFast Clarabel.Csc.LemmasDiag Clarabel.Csc.LemmasIdx.
 
 Theorem C16_laws_Z : Laws OpsZ.
 Proof. split; [exact RingLawsZ | exact Z.eqb_eq]. Qed.
@@ -96,3 +97,27 @@ Theorem C16_hvcat : forall T (O : Ops T), stmt_hvcat O.
 Proof. exact @hvcat_ok. Qed.
 Theorem C16_offsets_cover : stmt_offsets_cover.
 Proof. exact offsets_cover_ok. Qed.
+
+(** the coded coefficient branches of gemv / gemv_T, the coded symv, and its unchecked indexing *)
+Theorem C16_scale_fast : forall T (O : Ops T), stmt_scale_fast O.
+Proof. exact @scale_fast_ok. Qed.
+Theorem C16_fast_paths : forall T (O : Ops T), stmt_fast_paths O.
+Proof. exact @fast_paths_ok. Qed.
+Theorem C16_fast_branches : forall T (O : Ops T), stmt_fast_branches O.
+Proof. exact @fast_branches_ok. Qed.
+Theorem C16_gemv_fast_dense : forall T (O : Ops T), stmt_gemv_fast_dense O.
+Proof. exact @gemv_fast_dense_ok. Qed.
+Theorem C16_symv_in_bounds : forall T, stmt_symv_in_bounds (T:=T).
+Proof. exact @symv_in_bounds_ok. Qed.
+
+(** index / structure helpers on arbitrary dimension-consistent encodings *)
+Theorem C16_raw_index_to_coord : forall T, stmt_raw_index_to_coord (T:=T).
+Proof. exact @raw_index_to_coord_ok. Qed.
+Theorem C16_index_to_coord_raw_agree : forall T (O : Ops T), stmt_index_to_coord_raw_agree O.
+Proof. exact @index_to_coord_raw_agree_ok. Qed.
+Theorem C16_is_triu_iff : forall T, stmt_is_triu_iff (T:=T).
+Proof. exact @is_triu_iff_ok. Qed.
+Theorem C16_add_missing_diag : forall T (O : Ops T), stmt_add_missing_diag O.
+Proof. exact @add_missing_diag_ok. Qed.
+Theorem C16_triu_roundtrip : forall T (O : Ops T), stmt_triu_roundtrip O.
+Proof. exact @triu_roundtrip_ok. Qed.
